@@ -1,4 +1,4 @@
-"""development driver: python3-vt -m pyvc.dev <qualname-substring> ..."""
+"""development driver: python3-vt -m pyvc.dev <qualname-substring> ... [-v]"""
 import sys, time
 import z3
 from .repo import Repo
@@ -25,31 +25,35 @@ def main():
         if fi is None:
             print("MISSING", c.qualname)
             continue
-        res = verify.verify_function(I, c, fi)
-        print("== %s paths=%d obligations=%d outcomes=%s %.1fs" % (key, res.paths, len(res.obligations), res.outcomes, res.seconds))
-        if res.error:
-            print("   ERROR:", res.error)
-            bad += 1
-        jobs = []
-        for i, ob in enumerate(res.obligations):
-            if ob.meta.get("trivial"):
-                continue
-            jobs.append(("%d:%s" % (i, ob.name), solve.build_query(ob, res.str_axioms), 10000, True))
-        t0 = time.time()
-        out = solve.discharge(jobs)
-        for name, r in sorted(out.items(), key=lambda kv: int(kv[0].split(":")[0])):
-            tot += 1
-            if r[1] != "unsat":
+        if fi.is_abstract and c.abstract:
+            continue
+        results = [verify.verify_function(I, c, fi)]
+        bc, bfi = verify.find_base_contract(I, c, fi)
+        if bc is not None:
+            results.append(verify.verify_refinement(I, c, fi, bc, bfi))
+        for res in results:
+            print("== %s paths=%d obligations=%d outcomes=%s %.1fs" % (res.key, res.paths, len(res.obligations), res.outcomes, res.seconds))
+            if res.error:
+                print("   ERROR:", res.error)
                 bad += 1
-                ob = res.obligations[int(name.split(":")[0])]
-                print("   %-7s %s  [%s] path=%s clause=%s" % (r[1].upper(), name, r[2], ob.meta.get("path"), ob.meta.get("clause")))
-                if verbose and r[4]:
-                    for k, v in sorted(r[4].items()):
-                        if not k.startswith("H_") or True:
+            jobs = []
+            for i, ob in enumerate(res.obligations):
+                if ob.meta.get("trivial"):
+                    continue
+                jobs.append(("%d:%s" % (i, ob.name), solve.build_query(ob, res.str_axioms), 10000, True))
+            t0 = time.time()
+            out = solve.discharge(jobs)
+            for name, r in sorted(out.items(), key=lambda kv: int(kv[0].split(":")[0])):
+                tot += 1
+                if r[1] != "unsat":
+                    bad += 1
+                    ob = res.obligations[int(name.split(":")[0])]
+                    print("   %-7s %s  [%s] path=%s clause=%s" % (r[1].upper(), name, r[2], ob.meta.get("path"), ob.meta.get("clause")))
+                    if verbose and r[4]:
+                        for k, v in sorted(r[4].items()):
                             print("        ", k, "=", v[:200])
-            elif verbose:
-                print("   ok      %s (%.2fs %s)" % (name, r[3], r[2]))
-        print("   solved %d in %.1fs" % (len(jobs), time.time() - t0))
+                elif verbose:
+                    print("   ok      %s (%.2fs %s)" % (name, r[3], r[2]))
     print("TOTAL obligations=%d not-discharged=%d" % (tot, bad))
 
 
